@@ -2,8 +2,9 @@ INIT Init
 NEXT Next
 CONSTANTS
   Part = "value"
-  L = 12
+  L = 4
   Cut = 6
+  Stride = 1
 INVARIANT LawOutDomain
 INVARIANT LawSame
 INVARIANT LawPreserving
